@@ -1,6 +1,7 @@
 """Generator of single TEAL source lines for the parse/print/table correspondence (C11, C16, C19)."""
 import json
 import os
+import random
 
 HERE = os.path.dirname(os.path.abspath(__file__))
 ROOT = os.path.dirname(HERE)
@@ -27,6 +28,45 @@ def small_int(rng):
 B64 = ["AA==", "QQ==", "aGVsbG8=", "aGVsbG8", "/+8=", "AQID", "//8=", "AB//", "//", "a//b"]
 B32 = ["AA", "ME======", "MFRGG===", "MFRGG", "74======"]
 BYTES_FORMS = ['0x', "0x00", "0xdeadBEEF", '"str"', '"a b // c"', '"q\\"x"'] + [f"base64 {x}" for x in B64] + [f"b64 {x}" for x in B64] + [f"base64({x})" for x in B64] + [f"b64({x})" for x in B64] + [f"base32 {x}" for x in B32] + [f"b32 {x}" for x in B32] + [f"base32({x})" for x in B32] + [f"b32({x})" for x in B32]
+
+
+def random_bytes_form(rng):
+    """a byte constant with random content in one of the accepted spellings (the data of base64 / base32 literals may
+    contain any letter of the alphabet, e.g. the digits 6 and 4 or the characters '/' and '+')"""
+    import base64
+    raw = bytes(rng.randrange(256) for _ in range(rng.choice([0, 1, 2, 3, 4, 5, 7, 8, 10, 11, 16, 20, 32])))
+    c = rng.random()
+    if c < 0.25:
+        # data that collides with the syntax around it: the keywords and digits of the prefixes are themselves
+        # letters of the base32 / base64 alphabets
+        kw = rng.choice(["64", "32", "B64", "B32", "BASE64", "BASE32", "b64", "b32", "base64", "base32", "0x", "//"])
+        if kw.isupper() or kw.isdigit():
+            alpha = "ABCDEFGHIJKLMNOPQRSTUVWXYZ234567"
+            d = "".join(rng.choice(alpha) for _ in range(rng.randrange(0, 6))) + kw + "".join(rng.choice(alpha) for _ in range(rng.randrange(0, 6)))
+            while len(d) % 8 not in (0, 2, 4, 5, 7):
+                d += "A"
+            return rng.choice(["base32 {}", "b32 {}", "base32({})", "b32({})"]).format(d)
+        alpha = "ABCDEFGHIJKLMNOPQRSTUVWXYZabcdefghijklmnopqrstuvwxyz0123456789+/"
+        d = "".join(rng.choice(alpha) for _ in range(rng.randrange(0, 6))) + kw + "".join(rng.choice(alpha) for _ in range(rng.randrange(0, 6)))
+        while len(d) % 4 != 0:
+            d += "A"
+        return rng.choice(["base64 {}", "b64 {}", "base64({})", "b64({})"]).format(d)
+    if c < 0.2:
+        h = raw.hex()
+        return "0x" + (h.upper() if rng.random() < 0.3 else h)
+    if c < 0.6:
+        d = base64.b64encode(raw).decode()
+        if rng.random() < 0.3:
+            d = d.rstrip("=")
+        if not d:
+            d = "AA=="
+        return rng.choice(["base64 {}", "b64 {}", "base64({})", "b64({})"]).format(d)
+    d = base64.b32encode(raw).decode()
+    if rng.random() < 0.5:
+        d = d.rstrip("=")
+    if not d:
+        d = "AA"
+    return rng.choice(["base32 {}", "b32 {}", "base32({})", "b32({})"]).format(d)
 
 
 def imm_for(rng, shape, tb):
@@ -95,6 +135,8 @@ def all_lines(rng, n):
     tb = tables()
     out = []
     rules = tb["rules"]
+    # a second stream for later additions, derived without consuming from rng (keeps the older lines stable)
+    rng2 = random.Random(str(rng.getstate()[1][:8]))
     # every rule at least a few times, across versions
     per = max(2, n // (len(rules) + 40))
     for key, cls, shape in rules:
@@ -117,7 +159,14 @@ def all_lines(rng, n):
     for blank in ["", "   ", "// only comment", "   // c", "\t"]:
         out.append((blank, 8, "blank"))
     rng.shuffle(out)
-    return out[: max(n, len(rules) * 2)]
+    out = out[: max(n, len(rules) * 2)]
+    extra = []
+    for _ in range(max(40, n // 10)):
+        op = rng2.choice(["byte", "pushbytes"])
+        extra.append((decorate(rng2, f"{op} {random_bytes_form(rng2)}"), rng2.randrange(1, 9), "bytes-random"))
+        if rng2.random() < 0.4:
+            extra.append((decorate(rng2, rng2.choice(["bytecblock ", "pushbytess "]) + " ".join(random_bytes_form(rng2) for _ in range(rng2.randrange(1, 4)))), rng2.randrange(1, 9), "bytes-list-random"))
+    return out + extra
 
 
 BLOCK_SPLITTERS = ("b ", "bz ", "bnz ", "callsub ", "retsub", "return", "err", "switch ", "match ")
